@@ -124,6 +124,7 @@ func c12(r *core.Report) {
 	r.Assumption("whether the JSON pointer resolves inside the value for oneOf sub-errors and message customiser behaviour are not decided")
 
 	c12ErrKind(r)
+	c12KeyVerbatim(r)
 	nMode, nLit := 0, 0
 	r.RunRule("C12.modes", "once a keyword has failed every mode returns non-nil: (M1) every `if` on a mode flag (failfast/multiError) has the flag as its whole condition and a body that is a single return of a provably non-nil error; (M5) the statements following it in the same list record the failure on the fall-through path (append to the accumulator or non-nil return); (M2) every non-empty SchemaError literal is returned directly or bound to a local that is then returned or appended unconditionally in the same list; (M3) a function with an accumulator ends with `if len(me) > 0 { return me }; return nil` and has no other possibly-nil return after the first append; mode flags are read nowhere else", 90, func() {
 		for _, vn := range c12Visitors {
